@@ -77,4 +77,11 @@ def scenario(rng, flavour):
                         elif rng.random() < 0.2:
                             extra.append({"op": "place_pending", "order": -1})
                     acts.extend(extra)
+    if flavour == "C10" and rng.random() < 0.35:
+        # an order that was refused (marked a violation, never placed) may be submitted again later - the same object
+        for m in sc["markets"]:
+            for u in m["updates"]:
+                for acts in (u.get("acts") or {}).values():
+                    if acts and rng.random() < 0.3:
+                        acts.append({"op": "place_again", "order": rng.choice([-1, -2, -3]), "live_trade_only": True})
     return sc
